@@ -160,6 +160,8 @@ def run(tier, seed, replay=None):
             run_case(run, drv, files, c["pl"], c["single"], "replay")
             settle_model(run, drv)
         return run.finish()
+    for files, pl, single in cr.corner_cases():
+        run_case(run, drv, files, pl, single, "corner")
     n = 90 if tier == "quick" else 600
     for _ in range(n):
         files, pl, single = cr.make_case(run.rng, tier)
